@@ -212,11 +212,16 @@ pub fn op_json(o: &Op) -> Value {
 }
 
 /// runs one history on one solver kind; `qpoints[i]` = query round after update i
-fn run_history(kind: &str, updates: &[Op], qpoints: &[bool], seed: u64, oracle: &str) -> Vec<String> {
+fn run_history(kind: &str, updates: &[Op], qpoints: &[bool], seed: u64, oracle: &str, backend: &str) -> Vec<String> {
+    let (kind, wide) = match kind.strip_prefix("wide:") {
+        Some(k) => (k, true),
+        None => (kind, false),
+    };
     let ctl = Ctl::new(oracle != "real", vec![]);
     {
         let mut c = ctl.borrow_mut();
         c.keep_clauses = false;
+        c.backend = backend.to_string();
         if oracle == "random" {
             c.rand_state = Some(seed | 1);
         }
@@ -225,7 +230,7 @@ fn run_history(kind: &str, updates: &[Op], qpoints: &[bool], seed: u64, oracle: 
     let (mut s, sem, dc, ds) = make(kind, &ctl);
     let mut rng = StdRng::seed_from_u64(seed);
     let certsem = if kind == "dummypr" { "CO" } else { sem };
-    let mut lines = vec![json!({"ev": "reset", "kind": kind, "sem": sem, "certsem_dc": certsem, "oracle": oracle}).to_string()];
+    let mut lines = vec![json!({"ev": "reset", "kind": kind, "sem": sem, "certsem_dc": certsem, "oracle": oracle, "wide": wide}).to_string()];
     let mut g = Gen::default();
     for (i, o) in updates.iter().enumerate() {
         let res = do_update(&mut s, o);
@@ -256,6 +261,13 @@ fn run_history(kind: &str, updates: &[Op], qpoints: &[bool], seed: u64, oracle: 
             }
         }
     }
+    if wide {
+        if let Some(a) = g.live.iter().next() {
+            let mut q = do_query(&mut s, sem, if dc { "DC" } else { "DS" }, *a, false);
+            q["ev"] = json!("usable");
+            lines.push(q.to_string());
+        }
+    }
     let (n_solve, cut) = {
         let c = ctl.borrow();
         (c.n_solve, c.cut)
@@ -273,6 +285,7 @@ pub fn cmd_dynamic(a: &Args) {
     let mode = a.get("mode", "c08");
     let oracle = a.get("oracle", "real");
     let universe = a.num("labels", 3);
+    let backend = a.get("backend", "cadical");
     let mut jobs: Vec<(String, Vec<Op>, Vec<bool>, u64)> = vec![];
     let hfile = a.get("hists", "");
     let mut rng = StdRng::seed_from_u64(seed);
@@ -335,9 +348,60 @@ pub fn cmd_dynamic(a: &Args) {
         n += 1;
         jobs.push((k.clone(), ups, qp, seed.wrapping_mul(131).wrapping_add(n)));
     }
+    // wide histories: 18-26 labels, hub-shaped attack patterns (an argument with 17+ outgoing attacks), many removals, invalid and
+    // redundant operations; only the results of the update calls are judged (the families of such frameworks are out of reach),
+    // and one final query checks that the solver is still usable
+    let wide = a.num("wide", 0);
+    for w in 0..wide {
+        let nl = 18 + (w % 9);
+        let mut g = Gen::default();
+        let mut ups: Vec<Op> = vec![];
+        for l in 1..=nl {
+            ups.push(Op { op: "newarg".into(), a: l, b: 0 });
+        }
+        for o in &ups {
+            g.apply(o);
+        }
+        let hub = 1 + (w % nl);
+        for l in 1..=nl {
+            if rng.gen_bool(0.9) {
+                ups.push(Op { op: "newatt".into(), a: hub, b: l });
+            }
+        }
+        for o in &ups[nl..] {
+            g.apply(o);
+        }
+        let pbad = if mode == "c09" { 0.2 } else { 0.0 };
+        for _ in 0..len {
+            let x: f64 = rng.gen();
+            let targets: Vec<usize> = g.att.iter().filter(|p| p.0 == hub && p.1 != hub).map(|p| p.1).collect();
+            let non_targets: Vec<usize> = g.live.iter().filter(|l| !g.att.contains(&(hub, **l))).cloned().collect();
+            let hub_alive = g.live.contains(&hub);
+            let o = if x < 0.18 && g.live.len() > 6 && !targets.is_empty() {
+                Op { op: "rmarg".into(), a: *targets.choose(&mut rng).unwrap(), b: 0 }
+            } else if x < 0.32 && !targets.is_empty() {
+                Op { op: "rmatt".into(), a: hub, b: *targets.choose(&mut rng).unwrap() }
+            } else if x < 0.45 && pbad > 0.0 && hub_alive && !non_targets.is_empty() {
+                // invalid: both arguments known, no such attack
+                Op { op: "rmatt".into(), a: hub, b: *non_targets.choose(&mut rng).unwrap() }
+            } else if x < 0.55 && hub_alive && !non_targets.is_empty() {
+                Op { op: "newatt".into(), a: hub, b: *non_targets.choose(&mut rng).unwrap() }
+            } else if rng.gen_bool(pbad) {
+                g.bad_op(&mut rng, nl).unwrap_or_else(|| g.good_op(&mut rng, nl))
+            } else {
+                g.good_op(&mut rng, nl)
+            };
+            g.apply(&o);
+            ups.push(o);
+        }
+        let qp: Vec<bool> = ups.iter().map(|_| false).collect();
+        let k = &kinds[w % kinds.len()];
+        n += 1;
+        jobs.push((format!("wide:{}", k), ups, qp, seed.wrapping_mul(733).wrapping_add(n)));
+    }
     let res = util::par_map(jobs, threads, |(k, ups, qp, s)| {
         util::install_quiet_panic_hook();
-        run_history(k, ups, qp, *s, &oracle)
+        run_history(k, ups, qp, *s, &oracle, &backend)
     });
     let _unused: BTreeMap<u8, u8> = BTreeMap::new();
     util::write_lines(&out, res.into_iter().flatten());
